@@ -110,6 +110,10 @@ def make_parser(c):
             p.set_function(n, lambda *a: list(a))
         elif kind == 'ident':
             p.set_function(n, lambda *a: a[0])
+        elif kind == 'ident_reenter':
+            # the identity again, but the host function evaluates another formula on the SAME parser before it returns
+            # (implementation side only; for the model it is the identity)
+            p.set_function(n, lambda *a, p=p: (p.parse('(1+2)*3'), a[0])[1])
         elif kind == 'const':
             p.set_function(n, lambda *a, v=thaw(payload): v)
         elif kind == 'raise_xl':
